@@ -527,3 +527,42 @@ def charclass_history_no_shared_state(x: int) -> bool:
     sp = x in (9, 10, 13, 32)
     return (x in CharacterClass(chr(92) + 'S')) == (not sp) and (x in CharacterClass(chr(92) + 's')) == sp and (x in CharacterClass(chr(92) + 'd')) == nd \
         and (x in CharacterClass(chr(92) + 'D')) == (not nd) and (x in unicode_category('Nd')) == nd and (x in _HIST_A) == (not sp and x not in (97, 55))
+
+
+# --- added after round-2 seeded changes: the fallback category builder (used for Unicode versions without shipped tables) -----------
+
+@ob(engine='z3', budget=120, bound='every code point x every category built by categories_fallback.get_unicodedata_categories(): equal to unicodedata, subcategories partition the code space, majors are unions',
+    funcs=['elementpath/regex/categories_fallback.py:get_unicodedata_categories'])
+def fallback_categories(ctx):
+    from elementpath.regex import categories_fallback
+    q = Queries(timeout_s=60, diff_binary=False)
+    x, rng = _bv()
+    cats = categories_fallback.get_unicodedata_categories()
+    ref = _unicodedata_ranges()
+    cex = []
+    minors = sorted(k for k in cats if len(k) == 2)
+    mem = {c: _member(x, _ranges_of(cats[c]._codepoints)) for c in cats}
+    for c in minors:
+        res, m = q.check('fallback %s = unicodedata' % c, rng + [mem[c] != _member(x, ref.get(c, []))])
+        if res == 'sat':
+            cex.append(dict(call='replay_fallback(%d, %r)' % (mval(m, x), c), message='fallback category %s wrong at U+%04X' % (c, mval(m, x))))
+    for mj in sorted(k for k in cats if len(k) == 1):
+        subs = [c for c in minors if c[0] == mj]
+        res, m = q.check('fallback %s = union of subcategories' % mj, rng + [mem[mj] != z3.Or(*[mem[c] for c in subs])])
+        if res == 'sat':
+            cex.append(dict(call='replay_fallback(%d, %r)' % (mval(m, x), mj), message='fallback major category %s wrong' % mj))
+    for c in minors:
+        cps = cats[c]._codepoints
+        if not _weak_invariant(cps):
+            cex.append(dict(call='replay_fallback(%d, %r)' % (0, c), message='fallback category %s: entries unsorted or overlapping' % c))
+    q.samples.append('categories=%d' % len(cats))
+    return q.result(cex[:6])
+
+
+def replay_fallback(cp, c):
+    from elementpath.regex import categories_fallback
+    cats = categories_fallback.get_unicodedata_categories()
+    if not _weak_invariant(cats[c]._codepoints):
+        return False
+    cat = unicodedata.category(chr(cp))
+    return (cp in cats[c]) == (cat == c if len(c) == 2 else cat[0] == c)
